@@ -147,7 +147,7 @@ package domain
 //@ spec func SpecIterOK(i *Iterator) bool = i.valid ==> 0 <= i.position && i.position < len(i.idx.mu.pointers) && i.currPtr == i.idx.mu.pointers[i.position] && telem.SpecOvl(i.currPtr.TimeRange, i.Bounds)
 
 //@ func (i *Iterator) reload() (ok bool)
-//@   requires SpecIterWF(i) && -1 <= i.position
+//@   requires SpecIterWF(i) && -1 <= i.position && i.valid
 //@   ensures  ok == i.valid && (ok ==> old(i.valid)) && SpecIterOK(i)
 //@   ensures  ok ==> 0 <= i.position && i.position < len(i.idx.mu.pointers) && i.currPtr == i.idx.mu.pointers[i.position]
 //@   ensures  !ok ==> i.currPtr == old(i.currPtr)
@@ -168,12 +168,12 @@ package domain
 //@   ensures  !ok ==> i.currPtr == old(i.currPtr)
 //@   modifies &i.valid, &i.currPtr, &i.position
 //@ func (i *Iterator) SeekLE(ctx context.Context, stamp telem.TimeStamp) (ok bool)
-//@   requires SpecIterWF(i) && stamp >= 0
+//@   requires SpecIterWF(i) && stamp >= 0 && (i.closed ==> !i.valid)
 //@   ensures  SpecIterOK(i) && ok == i.valid
 //@   ensures  ok ==> i.currPtr.Start <= stamp && (forall k int :: i.position < k && k < len(i.idx.mu.pointers) ==> stamp < i.idx.mu.pointers[k].Start)
 //@   modifies &i.valid, &i.currPtr, &i.position
 //@ func (i *Iterator) SeekGE(ctx context.Context, stamp telem.TimeStamp) (ok bool)
-//@   requires SpecIterWF(i) && stamp >= 0
+//@   requires SpecIterWF(i) && stamp >= 0 && (i.closed ==> !i.valid)
 //@   ensures  SpecIterOK(i) && ok == i.valid
 //@   ensures  ok ==> stamp < i.currPtr.End && (forall k int :: 0 <= k && k < i.position ==> i.idx.mu.pointers[k].End <= stamp)
 //@   modifies &i.valid, &i.currPtr, &i.position
